@@ -122,6 +122,7 @@ class RunTaskExecutable(Operation):
             stderr_output.maybe_tee(process.stderr, sys.stderr, ctx)
 
             handle = OperationExecutionHandle.from_async_process(pid=process.pid)
+            handle.process = process
             handle.stdout = stdout_output
             handle.stderr = stderr_output
             return handle
@@ -149,6 +150,10 @@ class RunTaskExecutable(Operation):
         handle.stderr.finish()
 
         assert handle.returncode is not None
+        if handle.process is not None:
+            # The SIGCHLD handler already reaped the process. Make sure that
+            # `Popen` never tries to wait on this (possibly recycled) pid.
+            handle.process.returncode = handle.returncode
         if handle.returncode != 0:
             raise TaskNonZeroExit(
                 task_identifier=self._identifier, code=handle.returncode
